@@ -104,7 +104,8 @@ FailStates(s, stmt) ==
   THEN LET r == Root(s, Target(stmt)) IN {s0, [s0 EXCEPT !.g[r] = None], [s0 EXCEPT !.H[Target(stmt)].gc = 0]}
   ELSE IF stmt.k = "backward" /\ s.track /\ ~s.H[stmt.h].const
   \* a rejected seed: no gradient is written, but the traversal has already dropped the stale gradients upstream
-  THEN LET vis == {h \in Handles(s) : s.H[h].node \in UpDiff(s, s.H[stmt.h].node)} IN
+  \* (dropped handles included: a tensor the program no longer names may still be the base a live view reads its gradient from)
+  THEN LET vis == {h \in AllH(s) : s.H[h].node \in UpDiff(s, s.H[stmt.h].node)} IN
        {s0, [s0 EXCEPT !.g = [h \in DOMAIN @ |-> IF h \in vis /\ s.H[h].base = 0 THEN None ELSE @[h]]]}
   ELSE {s0}
 
